@@ -1072,13 +1072,13 @@ func main() {
 		}
 		nd, ns := 4000, 60
 		if o.Thorough() {
-			nd, ns = 25000, 400
+			nd, ns = 50000, 600
 		}
 		if o.Search {
 			nd, ns = 60000, 300
 		}
 		x.exhaustiveLookups(r)
-		x.exhaustiveChildren(r)
+		x.exhaustiveChildren(r, map[bool]int{false: 3, true: 4}[o.Thorough() || o.Search])
 		x.nearEmpty(r)
 		x.registrations(r)
 		for i := 0; i < nd; i++ {
